@@ -2,7 +2,8 @@
 import diffcheck
 import gen_c17
 
-EV = dict(CALL=1, RET_OK=2, RET_REJ=3, RET_REJ_WRONG=4, RES_OK=5, RES_FAIL=6, WSTART=7, JSTART=8, JEND=9, GDROP=10)
+EV = dict(CALL=1, RET_OK=2, RET_REJ=3, RET_REJ_WRONG=4, RES_OK=5, RES_FAIL=6, WSTART=7, JSTART=8, JEND=9, GDROP=10,
+          WOKEN=11)
 
 
 def parse(out):
@@ -15,8 +16,8 @@ def parse(out):
         owner, panics, runner, first, runs, status = out[p + 1 + 6 * i: p + 7 + 6 * i]
         jobs.append(dict(owner=owner, panics=panics, runner=runner, first=first, runs=runs, status=status))
     q = p + 1 + 6 * nj
-    gauge, limit, hang, dropped, d = out[q: q + 5]
-    return evs, jobs, dict(gauge=gauge, limit=limit, hang=hang, dropped=dropped, d=d)
+    gauge, limit, hang, dropped, d, x0, x1, x2, x3 = out[q: q + 9]
+    return evs, jobs, dict(gauge=gauge, limit=limit, hang=hang, dropped=dropped, d=d, x=[x0, x1, x2, x3])
 
 
 def wellformed(out):
@@ -26,7 +27,7 @@ def wellformed(out):
     p = 1 + 3 * n
     if len(out) <= p:
         return False
-    return len(out) == p + 1 + 6 * out[p] + 5
+    return len(out) == p + 1 + 6 * out[p] + 9
 
 
 def oracle(case, out):
@@ -38,6 +39,10 @@ def oracle(case, out):
         return "malformed harness output"
     evs, jobs, t = parse(out)
     limit = t["limit"]
+    if case[:1] == [4] and t["x"][0]:
+        return ("lost wake-up: a pool thread had sent the result of job %d and called the driver's waker at least "
+                "1.5 s before, yet the driver slept through its whole 4 s poll timeout (%d timed-out poll(s), "
+                "round %d)" % (t["x"][0] - 1, t["x"][1], t["x"][3]))
     if t["hang"]:
         stuck = [i for i, j in enumerate(jobs) if j["status"] == 0]
         return "hang: job(s) %s never completed or never reached the submitter within the watchdog" % stuck
@@ -51,7 +56,20 @@ def oracle(case, out):
     if t["gauge"] > limit:
         return "%d jobs ran at once in a pool limited to %d threads" % (t["gauge"], limit)
     starts, ends, alive = {}, {}, 0
+    woken, sent_by = {}, {}
     for (k, a, b) in evs:
+        # every result that was sent is followed by the wake of its submitter (same pool thread, next)
+        if k == EV["JEND"]:
+            if a in sent_by:
+                return "pool thread %d finished job %d without having woken the submitter of job %d" % (a, b, sent_by[a])
+            sent_by[a] = b
+        elif k == EV["WOKEN"]:
+            if sent_by.get(a) != b:
+                return "wake for job %d on pool thread %d without a result sent before" % (b, a)
+            del sent_by[a]
+            woken[b] = woken.get(b, 0) + 1
+        elif k in (EV["JSTART"], EV["GDROP"]) and a in sent_by:
+            return "pool thread %d went on after sending the result of job %d without waking its submitter" % (a, sent_by[a])
         if k == EV["RET_REJ_WRONG"]:
             return "a rejected dispatch handed back a different closure than the one submitted (job %d)" % b
         if k == EV["JSTART"]:
@@ -66,18 +84,19 @@ def oracle(case, out):
             alive -= 1
         if k in (EV["RES_OK"], EV["RES_FAIL"], EV["GDROP"]) and b > limit:
             return "pool counter %d above the limit %d" % (b, limit)
-    for i in range(len(jobs)):
-        if starts.get(i, 0) != 1 or ends.get(i, 0) != 1:
-            return "job %d: %d start / %d end events in the history" % (i, starts.get(i, 0), ends.get(i, 0))
+    if evs:
+        for i in range(len(jobs)):
+            if starts.get(i, 0) != 1 or ends.get(i, 0) != 1:
+                return "job %d: %d start / %d end events in the history" % (i, starts.get(i, 0), ends.get(i, 0))
+            if woken.get(i, 0) != 1:
+                return "job %d: its result was sent but the submitter was woken %d times" % (i, woken.get(i, 0))
     return None
 
 
 class C17(diffcheck.DiffProp):
     pid = "C17"
-    manifest = dict(
-        text="Coq proof over an interleaving labelled transition system of AsyncifyPool (rendezvous channel, counter, dispatcher and worker program counters, retry loop of push_blocking; every atomic operation one label), for all limits >= 1, any number of dispatcher threads / runtimes sharing the pool and of jobs, ALL interleavings: pool threads alive and jobs running never exceed the limit; every job is held by exactly one thread or consumed by its single run, its result or caught panic goes to its own submitter once; a rejected dispatch hands the same closure back and the retry loop re-submits it; from every reachable state every unfinished job can still complete (no stuck state); after all workers retired a later dispatch spawns a new worker and the job runs. The pre-fix protocol is kept as a second transition function with witness interleavings refuting the bound (2 dispatchers, limit 1; also 1 dispatcher, limit 2) and showing the hand-over deadlock. Tied to the code by replaying hook-recorded histories of the real pool (1-4 dispatcher threads, proactors sharing a pool, Runtime::spawn_blocking, forced window at sched_point(10)) through the extracted LTS, plus an oracle (each job ran once, gauge <= limit, nothing hangs).",
-        note="Two defects found and fixed in /repo (34b5952 limit exceeded by concurrent dispatchers; fa61bdf dispatch() blocked for ever when the fresh worker timed out before the blocking send). Modelled: sequentially consistent interleavings only (no weak memory); fetch_update is one label; a Dispatchable that unwinds out of run() (never produced by the drivers, which wrap the operation in catch_unwind_io) and thread::spawn failure are left out; completion delivery is an append-only log (the driver's reaping and waker are C02/C03). never_stuck is possibility (exists a continuation), not a fairness-based liveness theorem. Trusted: Coq kernel, extraction + driver, cfg(compio_verif) hook commits (counter events recorded atomically via verif::section), harness/rt/src/bin/c17.rs event renumbering and rejection compression. No axioms.",
-        technique="Coq invariant proof over an interleaving LTS + acceptance of recorded histories by the extracted LTS")
+    evidence_name = "C17_pool"
+    corpus_name = "C17"
     prop_file = "prop/C17.v"
     model_name = "c17"
     harness_bin = "c17"
@@ -89,7 +108,9 @@ class C17(diffcheck.DiffProp):
     counts = {"quick": 220, "thorough": 4000}
     rule = ("direct AsyncifyPool::new(limit 1-4, idle timeout 0-50 ms) driven from 1-4 dispatcher threads in phases "
             "(gaps beyond the timeout let workers retire), forced window at sched_point(10) with 2-4 dispatchers, "
-            "1-4 proactors (io_uring / polling) sharing one pool with panicking Asyncify ops, Runtime::spawn_blocking; "
+            "1-4 proactors (io_uring / polling) sharing one pool with panicking Asyncify ops, Runtime::spawn_blocking, "
+            "k = 2-4 jobs leaving a spin barrier together while the driver sleeps in poll(4 s), 150-300 rounds per case "
+            "(300-800 thorough); "
             "non-trivial = a slot was reserved, a worker spawned and a job ran; distinct = distinct cases")
     trusted_base = [
         "Coq 8.16.1 kernel (coqc, full .vo build)",
@@ -119,9 +140,10 @@ class C17(diffcheck.DiffProp):
 
     def model_expected(self, case, out):
         if not wellformed(out):
-            return [1, 0, 0, 1, 1]
+            return [1, 0, 0, 1, 1, 0]
         evs, jobs, t = parse(out)
-        return [1, len(jobs), len(jobs), 1, 1]
+        n = len(jobs) if evs else 0      # no history recorded (dispatcher part, join overlapping): nothing to replay
+        return [1, n, n, 1, 1, n]
 
     def oracle(self, case, out):
         return oracle(case, out)
@@ -130,4 +152,117 @@ class C17(diffcheck.DiffProp):
         return None
 
 
-PROP = C17()
+def oracle_disp(case, out):
+    """dispatcher part: the gauge over ALL paths, once-only, delivery, join returns"""
+    if out[:1] == [99999]:
+        return None
+    if out[:1] == [2] and len(out) == 2:
+        return "panic/abort/hang (code %d) in the harness run" % out[1]
+    if not wellformed(out):
+        return "malformed harness output"
+    evs, jobs, t = parse(out)
+    limit, join, jm = t["limit"], t["x"][1], t["x"][2]
+    if t["gauge"] > limit:
+        return ("%d blocking jobs ran at once over the dispatcher's worker runtimes and dispatch_blocking although "
+                "the dispatcher was built with thread_pool_limit(%d): the submitters do not share one pool"
+                % (t["gauge"], limit))
+    if join == 3:
+        return "Dispatcher::join did not return within the watchdog (40 s)"
+    for i, j in enumerate(jobs):
+        if j["runs"] > 1:
+            return "job %d ran %d times" % (i, j["runs"])
+        if jm == 2:
+            # join right after submitting: a queued task may be cancelled, but never half-delivered
+            if j["status"] in (1, 2) and j["runs"] != 1:
+                return "job %d reported a result without having run once (runs %d)" % (i, j["runs"])
+            if j["status"] == 3:
+                return "job %d: wrong value delivered to its submitter" % i
+            continue
+        if j["runs"] != 1:
+            return "job %d ran %d times (must run exactly once)" % (i, j["runs"])
+        want = 2 if j["panics"] else 1
+        if j["status"] != want:
+            return ("job %d: submitter saw status %d, expected %d (0 nothing within 40 s, 1 own result, 2 panic "
+                    "surfaced, 3 wrong value, 4 cancelled)" % (i, j["status"], want))
+    if join != 1:
+        return "Dispatcher::join returned an error / re-raised a panic (%d)" % join
+    if evs:
+        return oracle([0], out)       # the replayed pool history: same independent checks as the pool part
+    return None
+
+
+class C17D(C17):
+    """dispatcher part: worker runtimes (spawn_blocking) + dispatch_blocking + join on one pool"""
+    evidence_name = "C17_disp"
+    corpus_name = "C17_disp"
+    harness_bin = "c17d"
+    package = "ext"
+    gen = gen_c17.D
+    shards = 6
+    counts = {"quick": 120, "thorough": 1500}
+    rule = ("compio_dispatcher::Dispatcher built with thread_pool_limit(1-4) only (no explicit reuse_thread_pool), "
+            "1-4 worker runtimes (concurrent / sequential) running spawn_blocking jobs (20% panicking) while 1-2 "
+            "threads call dispatch_blocking, join after all results / while dispatch_blocking jobs run / right "
+            "after submitting; a global gauge inside the jobs; join-after-results histories are replayed through the "
+            "pool LTS; non-trivial = at least two jobs")
+
+    def oracle(self, case, out):
+        return oracle_disp(case, out)
+
+
+MANIFEST = dict(
+    text="Coq proof over an interleaving labelled transition system of AsyncifyPool (rendezvous channel, counter, "
+         "dispatcher and worker program counters, retry loop of push_blocking, the worker's send-result-then-wake "
+         "pair; every atomic operation one label), for all limits >= 1, any number of dispatcher threads / runtimes "
+         "sharing the pool and of jobs, ALL interleavings: pool threads alive and jobs running never exceed the "
+         "limit of the pool object; every job is held by exactly one thread or consumed by its single run, its result "
+         "or caught panic goes to its own submitter once; every result placed in a completed channel is followed by "
+         "an unconditional wake of that submitter's driver and no wake precedes its result; a rejected dispatch hands "
+         "the same closure back and the retry loop re-submits it; from every reachable state every unfinished job "
+         "can still complete (no stuck state); after all workers retired a later dispatch spawns a new worker and "
+         "the job runs. The pre-fix protocol is kept as a second transition function with witness interleavings "
+         "refuting the bound (2 dispatchers, limit 1; also 1 dispatcher, limit 2) and showing the hand-over deadlock. "
+         "Tied to the code by replaying hook-recorded histories of the real pool (1-4 dispatcher threads, proactors "
+         "sharing a pool, Runtime::spawn_blocking, forced window at sched_point(10), a Dispatcher's worker runtimes "
+         "plus dispatch_blocking) through the extracted LTS, plus oracles: each job ran once, a gauge inside the jobs "
+         "<= limit over all submission paths of one dispatcher, results reach their submitters, k jobs finishing "
+         "together all wake a driver sleeping in poll, join returns, nothing hangs.",
+    note="Three defects found and fixed in /repo (34b5952 limit exceeded by concurrent dispatchers; fa61bdf dispatch() "
+         "blocked for ever when the fresh worker timed out before the blocking send; 7d8e067 Dispatcher::join "
+         "deadlocked with limit 1 because its thread-joining closure occupied the only pool slot). Modelled: "
+         "sequentially consistent interleavings only (no weak memory); fetch_update is one label; the bound is a "
+         "theorem about ONE pool object (C17_bound_is_per_pool) - that all submitters of a dispatcher share one is "
+         "checked on the real Dispatcher by the gauge, not proved; a Dispatchable that unwinds out of run() and "
+         "thread::spawn failure are left out; what the driver does with a wake (AwakeFlag, eventfd) is C03's model, "
+         "here only 'every send is followed by a wake'; never_stuck is possibility (exists a continuation), not a "
+         "fairness-based liveness theorem. Watchdogs are 40 s / 90 s; the lost-wake-up verdict needs a poll that "
+         "timed out (4 s) although the wake had been issued >= 1.5 s earlier on a ticker recorded in the same log. "
+         "Trusted: Coq kernel, extraction + driver, cfg(compio_verif) hook commits (counter events recorded atomically "
+         "via verif::section, BLOCKING_WOKEN), harness/rt/src/bin/c17.rs and harness/ext/src/bin/c17d.rs event "
+         "renumbering and rejection compression. No axioms.",
+    technique="Coq invariant proof over an interleaving LTS + acceptance of recorded histories by the extracted LTS")
+
+
+class C17All:
+    """C17 = pool part (harness rt/c17) + dispatcher part (harness ext/c17d); one evidence file"""
+    pid = "C17"
+    manifest = MANIFEST
+    prop_file = "prop/C17.v"
+    model_name = "c17"
+    harness_bin = "c17"
+    package = "rt"
+    model_names = ["c17"]
+    harness_bins = [("c17", "rt"), ("c17d", "ext")]
+
+    def __init__(self):
+        self.parts = [C17(), C17D()]
+        self.gen = self.parts[0].gen
+
+    def oracle(self, case, out):
+        return self.parts[0].oracle(case, out)
+
+    def run(self, tier, seed, replay=None):
+        return diffcheck.run_multi("C17", self.parts, tier, seed, replay)
+
+
+PROP = C17All()
